@@ -69,18 +69,73 @@ func sameMem(a, b ssa.Value) bool {
 	if fn == nil {
 		return false
 	}
-	// any store to the same path kills the equivalence
+	// a store to the same path kills the equivalence if it can execute before
+	// either read (flow-insensitive otherwise: stores that cannot reach the
+	// reads, e.g. a final assignment after the loop that reads, are ignored)
+	ia, oka := a.(ssa.Instruction)
+	ib, okb := b.(ssa.Instruction)
 	for _, blk := range fn.Blocks {
 		for _, ins := range blk.Instrs {
 			if st, ok := ins.(*ssa.Store); ok {
 				r, p := accessPath(st.Addr)
 				if r == ra && p+"*" == pa {
+					if oka && okb && !blockReaches(blk, ia.Block()) && !blockReaches(blk, ib.Block()) {
+						continue
+					}
 					return false
 				}
 			}
 		}
 	}
 	return true
+}
+
+// blockReaches: there is a path of one or more edges from a to b, or a == b.
+func blockReaches(a, b *ssa.BasicBlock) bool {
+	if a == b {
+		return true
+	}
+	seen := map[*ssa.BasicBlock]bool{a: true}
+	stack := []*ssa.BasicBlock{a}
+	for len(stack) > 0 {
+		x := stack[len(stack)-1]
+		stack = stack[:len(stack)-1]
+		for _, s := range x.Succs {
+			if s == b {
+				return true
+			}
+			if !seen[s] {
+				seen[s] = true
+				stack = append(stack, s)
+			}
+		}
+	}
+	return false
+}
+
+// stripWiden removes type changes and integer conversions that cannot change
+// the numeric value (every value of the source type is representable in the
+// target type, on 32-bit and 64-bit platforms alike).
+func stripWiden(v ssa.Value) ssa.Value {
+	for {
+		switch x := v.(type) {
+		case *ssa.ChangeType:
+			v = x.X
+			continue
+		case *ssa.Convert:
+			if _, _, ok := isIntegerType(x.X.Type()); ok {
+				if _, _, ok2 := isIntegerType(x.Type()); ok2 {
+					src, dst := typeRange(x.X.Type(), 32), typeRange(x.Type(), 32)
+					src64, dst64 := typeRange(x.X.Type(), 64), typeRange(x.Type(), 64)
+					if src.lo >= dst.lo && src.hi <= dst.hi && src64.lo >= dst64.lo && src64.hi <= dst64.hi {
+						v = x.X
+						continue
+					}
+				}
+			}
+		}
+		return v
+	}
 }
 
 func stripChangeOnly(v ssa.Value) ssa.Value {
@@ -147,10 +202,11 @@ const (
 )
 
 type ival struct {
-	lo, hi  int64
-	notZero bool
-	symHi   []ssa.Value // values u with v <= u (or v < u) known on this path
-	symLo   []ssa.Value
+	lo, hi      int64
+	notZero     bool
+	symHi       []ssa.Value // values u with v <= u (or v < u) known on this path
+	symHiStrict []ssa.Value // values u with v < u
+	symLo       []ssa.Value
 }
 
 func fullRange() ival { return ival{lo: negInf, hi: posInf} }
@@ -190,6 +246,7 @@ func (r *ival) meet(o ival) {
 	}
 	r.notZero = r.notZero || o.notZero
 	r.symHi = append(r.symHi, o.symHi...)
+	r.symHiStrict = append(r.symHiStrict, o.symHiStrict...)
 	r.symLo = append(r.symLo, o.symLo...)
 }
 
@@ -261,74 +318,256 @@ func guardEdges(b *ssa.BasicBlock) []struct {
 	return out
 }
 
-// rangeAt computes what the dominating comparisons say about v at block b.
-// ptrBits is the size of int for the configuration analysed.
+// exprEq reports whether a and b are structurally the same pure expression
+// over the same memory: equal constants, the same operator applied to equal
+// operands, len/cap of equal operands, value-preserving conversions of equal
+// operands, or the same memory in the sense of sameMem.  go/ssa performs no
+// CSE, so `1+offset` written twice yields two values; this identifies them.
+func exprEq(a, b ssa.Value) bool {
+	return exprEqD(a, b, 0)
+}
+
+func exprEqD(a, b ssa.Value, d int) bool {
+	if a == b {
+		return true
+	}
+	if d > 6 {
+		return false
+	}
+	a, b = stripWiden(a), stripWiden(b)
+	if a == b {
+		return true
+	}
+	switch x := a.(type) {
+	case *ssa.Const:
+		y, ok := b.(*ssa.Const)
+		if !ok || x.Value == nil || y.Value == nil {
+			return false
+		}
+		return x.Value.ExactString() == y.Value.ExactString() && types.Identical(x.Type().Underlying(), y.Type().Underlying())
+	case *ssa.BinOp:
+		y, ok := b.(*ssa.BinOp)
+		if !ok || x.Op != y.Op {
+			return false
+		}
+		if exprEqD(x.X, y.X, d+1) && exprEqD(x.Y, y.Y, d+1) {
+			return true
+		}
+		if x.Op == token.ADD || x.Op == token.MUL {
+			return exprEqD(x.X, y.Y, d+1) && exprEqD(x.Y, y.X, d+1)
+		}
+		return false
+	case *ssa.Convert:
+		y, ok := b.(*ssa.Convert)
+		return ok && types.Identical(x.Type(), y.Type()) && exprEqD(x.X, y.X, d+1)
+	case *ssa.Call:
+		y, ok := b.(*ssa.Call)
+		if !ok {
+			return false
+		}
+		bx, ok1 := x.Call.Value.(*ssa.Builtin)
+		by, ok2 := y.Call.Value.(*ssa.Builtin)
+		if ok1 && ok2 && bx.Name() == by.Name() && (bx.Name() == "len" || bx.Name() == "cap") {
+			return exprEqD(x.Call.Args[0], y.Call.Args[0], d+1)
+		}
+		return false
+	}
+	return sameMem(a, b)
+}
+
+// rangeAt computes what the definition of v and the comparisons dominating
+// block b say about v.  ptrBits is the size of int for the configuration.
 func rangeAt(v ssa.Value, b *ssa.BasicBlock, ptrBits int) ival {
-	r := valueRange(v, ptrBits, 0)
-	for _, g := range guardEdges(b) {
-		applyCond(&r, v, g.If.Cond, g.Truth, ptrBits)
+	return rangeAtD(v, b, ptrBits, 0)
+}
+
+func addSat(a, b int64) (int64, bool) {
+	c := a + b
+	if (a > 0 && b > 0 && c < 0) || (a < 0 && b < 0 && c >= 0) {
+		return 0, false
+	}
+	return c, true
+}
+
+func rangeAtD(v ssa.Value, b *ssa.BasicBlock, ptrBits, depth int) ival {
+	tr := typeRange(v.Type(), ptrBits)
+	r := tr
+	if depth <= 5 {
+		switch x := v.(type) {
+		case *ssa.Const:
+			if k, ok := constInt64(x); ok {
+				return ival{lo: k, hi: k}
+			}
+		case *ssa.ChangeType:
+			r.meet(rangeAtD(x.X, b, ptrBits, depth+1))
+		case *ssa.Convert:
+			// value preserving only if the source range fits the target type
+			if _, _, ok := isIntegerType(x.X.Type()); ok {
+				src := rangeAtD(x.X, b, ptrBits, depth+1)
+				if src.lo >= tr.lo && src.hi <= tr.hi {
+					r.meet(src)
+				}
+			}
+		case *ssa.Call:
+			if bi, ok := x.Call.Value.(*ssa.Builtin); ok && (bi.Name() == "len" || bi.Name() == "cap") {
+				r.lo = 0
+			}
+		case *ssa.Phi:
+			j := ival{lo: posInf, hi: negInf, notZero: true}
+			blk := x.Block()
+			for i, e := range x.Edges {
+				if e == v {
+					continue
+				}
+				var pred *ssa.BasicBlock
+				if blk != nil && i < len(blk.Preds) {
+					pred = blk.Preds[i]
+				}
+				// induction: an edge phi+k only moves the value in one
+				// direction; the bound on the moving side is what the guards
+				// dominating the back edge say about the incremented value.
+				if bo, ok := e.(*ssa.BinOp); ok && (bo.Op == token.ADD || bo.Op == token.SUB) && bo.X == v {
+					kr := rangeAtD(bo.Y, nil, ptrBits, depth+2)
+					if bo.Op == token.SUB {
+						if kr.lo != negInf && kr.hi != posInf {
+							kr.lo, kr.hi = -kr.hi, -kr.lo
+						} else {
+							kr = fullRange()
+						}
+					}
+					gr := guardRange(e, pred, ptrBits)
+					if kr.lo >= 0 {
+						if gr.hi > j.hi {
+							j.hi = gr.hi
+						}
+						j.notZero = false
+						continue
+					}
+					if kr.hi <= 0 {
+						if gr.lo < j.lo {
+							j.lo = gr.lo
+						}
+						j.notZero = false
+						continue
+					}
+				}
+				er := rangeAtD(e, pred, ptrBits, depth+2)
+				if er.lo < j.lo {
+					j.lo = er.lo
+				}
+				if er.hi > j.hi {
+					j.hi = er.hi
+				}
+				if !er.nonZero() {
+					j.notZero = false
+				}
+			}
+			if j.lo != posInf && j.hi != negInf && j.lo <= j.hi {
+				r.meet(ival{lo: j.lo, hi: j.hi, notZero: j.notZero})
+			}
+		case *ssa.BinOp:
+			switch x.Op {
+			case token.ADD, token.SUB:
+				if _, _, ok := isIntegerType(x.Type()); ok {
+					l := rangeAtD(x.X, b, ptrBits, depth+1)
+					rr := rangeAtD(x.Y, b, ptrBits, depth+1)
+					if x.Op == token.SUB {
+						nlo, nhi := int64(negInf), int64(posInf)
+						if rr.hi != posInf && rr.hi != negInf {
+							nlo = -rr.hi
+						}
+						if rr.lo != negInf {
+							nhi = -rr.lo
+						}
+						rr.lo, rr.hi = nlo, nhi
+					}
+					// the result is exact only if it cannot wrap in the operand
+					// type: both ends must be finite and inside the type range
+					if l.lo == negInf || l.hi == posInf || rr.lo == negInf || rr.hi == posInf {
+						break
+					}
+					lo, ok1 := addSat(l.lo, rr.lo)
+					hi, ok2 := addSat(l.hi, rr.hi)
+					if ok1 && ok2 && lo >= tr.lo && hi <= tr.hi {
+						r.meet(ival{lo: lo, hi: hi})
+					}
+				}
+			case token.AND:
+				if k, ok := constInt64(x.Y); ok && k >= 0 {
+					r.meet(ival{lo: 0, hi: k})
+				}
+			case token.REM:
+				if k, ok := constInt64(x.Y); ok && k > 0 {
+					r.meet(ival{lo: -(k - 1), hi: k - 1})
+				}
+			case token.QUO:
+				if k, ok := constInt64(x.Y); ok && k > 0 {
+					l := rangeAtD(x.X, b, ptrBits, depth+1)
+					if l.lo != negInf && l.hi != posInf {
+						r.meet(ival{lo: l.lo / k, hi: l.hi / k})
+					}
+					if l.lo >= 0 {
+						r.lo = 0
+						r.symHi = append(r.symHi, l.symHi...) // v/k <= v <= u for v >= 0
+					}
+				}
+			}
+		}
+	}
+	if b != nil {
+		for _, g := range guardEdges(b) {
+			applyCond(&r, v, g.If.Cond, g.Truth, ptrBits)
+		}
+	}
+	return r
+}
+
+// linearOf: e is v + k (k constant) computed without possible wrap-around.
+func linearOf(e, v ssa.Value, ptrBits int) (int64, bool) {
+	bo, ok := stripWiden(e).(*ssa.BinOp)
+	if !ok || (bo.Op != token.ADD && bo.Op != token.SUB) {
+		return 0, false
+	}
+	var w ssa.Value
+	var k int64
+	if c, ok := constInt64(bo.Y); ok && exprEq(bo.X, v) {
+		w, k = bo.X, c
+		if bo.Op == token.SUB {
+			k = -c
+		}
+	} else if c, ok := constInt64(bo.X); ok && bo.Op == token.ADD && exprEq(bo.Y, v) {
+		w, k = bo.Y, c
+	} else {
+		return 0, false
+	}
+	// no wrap: the whole type range of the operand, shifted, fits the type
+	wr := valueRange(w, ptrBits, 3)
+	tr := typeRange(bo.Type(), ptrBits)
+	if wr.lo == negInf || wr.hi == posInf {
+		return 0, false
+	}
+	lo, ok1 := addSat(wr.lo, k)
+	hi, ok2 := addSat(wr.hi, k)
+	if !ok1 || !ok2 || lo < tr.lo || hi > tr.hi {
+		return 0, false
+	}
+	return k, true
+}
+
+// guardRange: the type range of v refined only by the comparisons dominating b.
+func guardRange(v ssa.Value, b *ssa.BasicBlock, ptrBits int) ival {
+	r := typeRange(v.Type(), ptrBits)
+	if b != nil {
+		for _, g := range guardEdges(b) {
+			applyCond(&r, v, g.If.Cond, g.Truth, ptrBits)
+		}
 	}
 	return r
 }
 
 // valueRange: what the definition of v says about it, independent of guards.
 func valueRange(v ssa.Value, ptrBits, depth int) ival {
-	r := typeRange(v.Type(), ptrBits)
-	if depth > 4 {
-		return r
-	}
-	switch x := v.(type) {
-	case *ssa.Const:
-		if k, ok := constInt64(x); ok {
-			return ival{lo: k, hi: k}
-		}
-	case *ssa.ChangeType:
-		r.meet(valueRange(x.X, ptrBits, depth+1))
-	case *ssa.Convert:
-		// value preserving only if the source range fits the target type
-		src := valueRange(x.X, ptrBits, depth+1)
-		if _, _, ok := isIntegerType(x.X.Type()); ok && src.lo >= r.lo && src.hi <= r.hi {
-			r.meet(src)
-		}
-	case *ssa.Call:
-		if bi, ok := x.Call.Value.(*ssa.Builtin); ok && (bi.Name() == "len" || bi.Name() == "cap") {
-			r.lo = 0
-		}
-	case *ssa.Phi:
-		j := ival{lo: posInf, hi: negInf, notZero: true}
-		for _, e := range x.Edges {
-			if e == v {
-				continue
-			}
-			er := valueRange(e, ptrBits, depth+1)
-			if er.lo < j.lo {
-				j.lo = er.lo
-			}
-			if er.hi > j.hi {
-				j.hi = er.hi
-			}
-			if !er.nonZero() {
-				j.notZero = false
-			}
-		}
-		if j.lo <= j.hi {
-			r.meet(ival{lo: j.lo, hi: j.hi, notZero: j.notZero})
-		}
-	case *ssa.BinOp:
-		switch x.Op {
-		case token.AND:
-			if k, ok := constInt64(x.Y); ok && k >= 0 {
-				r.meet(ival{lo: 0, hi: k})
-			}
-		case token.REM:
-			if k, ok := constInt64(x.Y); ok && k > 0 {
-				r.meet(ival{lo: -(k - 1), hi: k - 1})
-			}
-		case token.SHR:
-			// unsigned value shifted right stays unsigned-bounded: nothing more
-		}
-	}
-	return r
+	return rangeAtD(v, nil, ptrBits, depth)
 }
 
 func applyCond(r *ival, v ssa.Value, cond ssa.Value, truth bool, ptrBits int) {
@@ -346,10 +585,16 @@ func applyCond(r *ival, v ssa.Value, cond ssa.Value, truth bool, ptrBits int) {
 			return
 		}
 		var other ssa.Value
-		if sameMem(c.X, v) {
+		var shift int64 // the compared operand is v + shift
+		if exprEq(c.X, v) {
 			other = c.Y
-		} else if sameMem(c.Y, v) {
+		} else if exprEq(c.Y, v) {
 			other = c.X
+			op = flipOp(op)
+		} else if k, ok := linearOf(c.X, v, ptrBits); ok {
+			other, shift = c.Y, k
+		} else if k, ok := linearOf(c.Y, v, ptrBits); ok {
+			other, shift = c.X, k
 			op = flipOp(op)
 		} else {
 			return
@@ -358,6 +603,13 @@ func applyCond(r *ival, v ssa.Value, cond ssa.Value, truth bool, ptrBits int) {
 			op = negOp(op)
 		}
 		if k, ok := constInt64(other); ok {
+			if shift != 0 {
+				nk, ok := addSat(k, -shift)
+				if !ok {
+					return
+				}
+				k = nk
+			}
 			switch op {
 			case token.LSS:
 				if k != negInf {
@@ -384,8 +636,18 @@ func applyCond(r *ival, v ssa.Value, cond ssa.Value, truth bool, ptrBits int) {
 			}
 			return
 		}
+		if shift != 0 {
+			return
+		}
 		switch op {
-		case token.LSS, token.LEQ, token.EQL:
+		case token.LSS:
+			r.symHi = append(r.symHi, other)
+			r.symHiStrict = append(r.symHiStrict, other)
+			// v < other <= max(type of other)
+			if om := typeRange(other.Type(), ptrBits).hi; om-1 < r.hi {
+				r.hi = om - 1
+			}
+		case token.LEQ, token.EQL:
 			r.symHi = append(r.symHi, other)
 			if op == token.EQL {
 				r.symLo = append(r.symLo, other)
